@@ -1,6 +1,8 @@
 package main
 
 import (
+	"os"
+	"strconv"
 	"go/token"
 	"fmt"
 	"go/ast"
@@ -733,6 +735,11 @@ var stringKernelImm = map[string]string{
 	"_parse_string":               "add:12 add:192 add:224 add:240 add:32 add:32 add:4238344192 add:4294910976 add:65536 and:4294966272 and:63 and:63 and:63 and:63 and:63 and:63 cmp:1114111 cmp:117 cmp:117 cmp:12 cmp:127 cmp:2047 cmp:21 cmp:55296 cmp:6 cmp:6 cmp:65535 cmp:65535 cmp:92 or:-128 or:-128 or:-128 or:-128 or:-128 or:-128 shl:10 shl:12 shl:12 shl:4 shl:4 shl:8 shl:8 shr:12 shr:12 shr:18 shr:6 shr:6 shr:6",
 }
 
+var stringKernelPred = map[string]string{
+	"_parse_string_validate_only": "eq:0 eq:55296 ge:1114112 ge:128 ge:2048 ge:6 ge:65536 ge:65536 lt:12 lt:128 lt:21 lt:6 ne:117 ne:117 ne:92",
+	"_parse_string":               "ge:1114112 ge:128 ge:2048 ge:6 ge:65536 ge:65536 lt:12 lt:21 lt:6 ne:117 ne:117 ne:55296 ne:92",
+}
+
 var reImmInstr = regexp.MustCompile(`^\s*(cmp|add|sub|and|or|shl|shr|inc|dec)\s+(.*)$`)
 
 func ruleStringKernelConstants(c *Ctx) {
@@ -778,12 +785,14 @@ func ruleStringKernelConstants(c *Ctx) {
 			continue
 		}
 		var imms []string
+		var decoded []string
 		nDec := 0
 		for _, l := range strings.Split(string(out), "\n") {
 			l = strings.TrimSpace(l)
 			if l == "" || strings.HasPrefix(l, ".") {
 				continue
 			}
+			decoded = append(decoded, l)
 			nDec++
 			m := reImmInstr.FindStringSubmatch(l)
 			if m == nil {
@@ -813,6 +822,61 @@ func ruleStringKernelConstants(c *Ctx) {
 		}
 		c.Unit("decoded_instructions["+fn+"]", nDec)
 		_ = jumps
+		// threshold tests: a compare with an immediate directly followed by a conditional jump, as a normalised
+		// predicate (JA k ≡ JAE k+1 → "ge:k+1", JB k ≡ JBE k−1 → "lt:k", JE/JNE → "eq:k"/"ne:k"), as a multiset
+		if nDec == len(lines) {
+			lineIdx := map[int]int{}
+			for i, ln := range lines {
+				lineIdx[ln] = i
+			}
+			var preds []string
+			for i, in := range f.Instrs {
+				if in.Bytes == nil {
+					continue
+				}
+				// last directive of its source line?
+				if i+1 < len(f.Instrs) && f.Instrs[i+1].Bytes != nil && f.Instrs[i+1].Line == in.Line {
+					continue
+				}
+				d := decoded[lineIdx[in.Line]]
+				m := reImmInstr.FindStringSubmatch(d)
+				if m == nil || m[1] != "cmp" {
+					continue
+				}
+				ops := strings.Split(m[2], ",")
+				k, err := strconv.ParseInt(strings.TrimSpace(ops[len(ops)-1]), 10, 64)
+				if err != nil {
+					continue
+				}
+				if i+1 >= len(f.Instrs) || f.Instrs[i+1].Label != "" || f.Instrs[i+1].Bytes != nil {
+					continue
+				}
+				switch f.Instrs[i+1].Op {
+				case "JA", "JHI":
+					preds = append(preds, fmt.Sprintf("ge:%d", k+1))
+				case "JAE", "JCC", "JHS":
+					preds = append(preds, fmt.Sprintf("ge:%d", k))
+				case "JB", "JCS", "JLO":
+					preds = append(preds, fmt.Sprintf("lt:%d", k))
+				case "JBE", "JLS":
+					preds = append(preds, fmt.Sprintf("lt:%d", k+1))
+				case "JE", "JEQ", "JZ":
+					preds = append(preds, fmt.Sprintf("eq:%d", k))
+				case "JNE", "JNZ":
+					preds = append(preds, fmt.Sprintf("ne:%d", k))
+				default:
+					if strings.HasPrefix(f.Instrs[i+1].Op, "J") && f.Instrs[i+1].Op != "JMP" {
+						preds = append(preds, fmt.Sprintf("%s:%d", f.Instrs[i+1].Op, k))
+					}
+				}
+			}
+			sort.Strings(preds)
+			gotP := strings.Join(preds, " ")
+			if os.Getenv("SIMDVET_PRINT_PREDS") != "" {
+				fmt.Printf("PREDS %s: %s\n", fn, gotP)
+			}
+			c.Check(gotP == stringKernelPred[fn], fn+":thresholds", f.File, fmt.Sprintf("%d compare-and-branch thresholds as specified (normalised: > k and >= k+1 are the same test)", len(preds)), "the threshold tests of the decoded kernel (compare with a constant + conditional jump) differ from the escape/UTF-8 algorithm: "+diffMultiset(stringKernelPred[fn], gotP), "a code point exactly at a UTF-8 length boundary (\\u007f/\\u0080, \\u07ff/\\u0800, \\uffff, U+10FFFF) or an escape at a window boundary")
+		}
 	}
 	// the shared length rule between the kernels and the Go wrapper: see C04.needcopy
 }
